@@ -44,6 +44,14 @@ def _grid_recipe(f):
                     "arange" in norm_src(n.elt.left):
                 offset = n.elt.right
                 svar = norm_src(n.generators[0].target)
+    # comprehension over (grid, size) pairs: [g - E for g, s in zip(grids, shape)]
+    if offset is None:
+        for n in ast.walk(f.node):
+            if isinstance(n, (ast.ListComp, ast.GeneratorExp)) and len(n.generators) == 1 and isinstance(n.elt, ast.BinOp) and isinstance(n.elt.op, ast.Sub) and \
+                    isinstance(n.generators[0].iter, ast.Call) and dotted(n.generators[0].iter.func) == "zip" and isinstance(n.generators[0].target, ast.Tuple) and \
+                    len(n.generators[0].target.elts) == 2 and norm_src(n.elt.left) == norm_src(n.generators[0].target.elts[0]):
+                offset = n.elt.right
+                svar = norm_src(n.generators[0].target.elts[1])
     shift = "none"
     axes_ok = True
     for r in walk_no_nested(f.node):
@@ -204,11 +212,15 @@ def normals_clause(model, rep, funcs):
         if f is None:
             continue
         dom = WedgeFrames(model)
-        it = Interp(model, dom, depth=1)
+        it = Interp(model, dom, depth=2)
         dots = []
 
+        sib_names = {x.split("::")[1].split(".")[-1] for x in MASK_SIBLINGS}
+
         def on_call(interp, fn, node, callee, args, kwargs, env, _f=f):
-            if fn is _f and isinstance(callee, ExtRef) and callee.name == "value.dot" and isinstance(callee.recv, Vec) and callee.recv.kind == "grid":
+            # the dot products may live in a sibling the function delegates to (create_mask -> _mask_from_norms): they are seen through inlining
+            if (fn is _f or (fn.name in sib_names and fn.module is _f.module)) and isinstance(callee, ExtRef) and callee.name == "value.dot" and \
+                    isinstance(callee.recv, Vec) and callee.recv.kind == "grid":
                 dots.append((node, args[0] if args else TOP))
 
         it.on_call.append(on_call)
@@ -263,6 +275,8 @@ def normals_clause(model, rep, funcs):
                 det += ": the zero-frequency bin is dropped"
             rep.ob("S13", a, "keep-predicate equals dot0*dot1 <= 0 on every sign pattern (non-strict: the zero-frequency bin and bins on a wedge plane are kept; "
                    "even under k -> -k)", (False if wrong else (None if undec else True)), det, node=pexpr, fn=f, clause="3 predicate")
+        elif not dnames and dots and not any(x is dots[0][0] for x in ast.walk(f.node)):
+            pass  # the function delegates to a sibling (the dot products were seen through inlining): the predicate is checked there
         else:
             rep.ob("S13", a, "keep-predicate on the product of the two signed distances", None, f"predicate not found ({len(dnames)} distances, {len(cands)} candidate "
                    "expressions)", node=f.node, fn=f, clause="3 predicate", stmt=f"def {f.name} #pred")
